@@ -381,6 +381,8 @@ def still_fails(prop, stream, ops_lines, wdir, want_kind, want_clause):
 
 def shrink(prop, fail, wdir, budget=150):
     """delta-debug the op list of a failing case (keeps the RESET line and the failure kind)"""
+    if getattr(fail, "no_shrink", False):
+        return fail
     ops = list(fail.ops)
     best = fail
     # first cut everything after the failing step
